@@ -15,6 +15,37 @@ from harness import core
 # ------------------------------------------------------------------ programs
 def gen_feature_program(rng, feature):
     """Returns dict(yaml=..., oracle=..., meta=...).  Workflow names: main (+ sub)."""
+    if feature == 'reverse':
+        # reverse workflow: `requires` graph (acyclic), optionally `task-defaults: requires`, a target task; every task
+        # succeeds or fails (outcome oracle).  What the language prescribes (meta): the tasks the target depends on run,
+        # each after everything it requires has succeeded, each once; nothing else runs.
+        n = rng.choice([1, 2, 3, 4, 5, 6, 7])
+        names = ['t%d' % i for i in range(n)]
+        req = {}
+        for i, nm in enumerate(names):
+            pool = names[:i]
+            k = rng.choice([0, 1, 1, 2, 3])
+            req[nm] = sorted(set(rng.choice(pool) for _ in range(k)), key=names.index) if pool else []
+        default = None
+        roots = [nm for nm in names if not req[nm]]
+        if rng.random() < 0.4 and roots:
+            default = rng.choice(roots)
+        eff = {nm: [r for r in dict.fromkeys(req[nm] + ([default] if default else [])) if r != nm] for nm in names}
+        outs = {nm: rng.choice(['ok', 'ok', 'ok', 'ok', 'err']) for nm in names}
+        target = rng.choice(names[n // 2:])
+        order = names[:]
+        rng.shuffle(order)
+        y = ["version: '2.0'", 'main:', '  type: reverse']
+        if default:
+            y += ['  task-defaults:', '    requires: [%s]' % default]
+        y += ['  tasks:']
+        for nm in order:
+            y += ['    %s:' % nm, '      action: verif.act tag="%s" value=%d' % (nm, names.index(nm) + 1), '      publish:', '        v_%s: <%% task().result %%>' % nm]
+            if req[nm]:
+                y.append('      requires: [%s]' % ', '.join(req[nm]))
+        oracle = {(nm, None, 0): (('ok', names.index(nm) + 1) if outs[nm] == 'ok' else ('err', 'boom')) for nm in names}
+        return {'yaml': '\n'.join(y) + '\n', 'oracle': oracle,
+                'meta': {'feature': feature, 'requires': eff, 'outs': outs, 'target': target, 'start_params': {'task_name': target}}}
     if feature == 'with_items':
         n = rng.choice([0, 1, 2, 3, 4, 5])
         conc = rng.choice([None, 1, 2, n + 1])
@@ -198,7 +229,7 @@ def run_one(d, prog, seed, inject_pause=False):
     fails = []
     meta = prog['meta']
     rng = random.Random('explore/%s' % seed)
-    out, wid = d.start_workflow('main', {})
+    out, wid = d.start_workflow('main', {}, **(meta.get('start_params') or {}))
     if out != 'ok':
         return {'failures': [{'property': 'C01', 'signature': 'start-failed:%s' % out, 'what': str(wid)[:200]}], 'summary': None,
                 'events': 0, 'meta': meta}
@@ -214,6 +245,18 @@ def run_one(d, prog, seed, inject_pause=False):
             if meta['concurrency'] is not None and running > meta['concurrency']:
                 fails.append({'property': 'C07', 'signature': 'concurrency-exceeded',
                               'what': '%d items RUNNING with concurrency %d after %s' % (running, meta['concurrency'], label)})
+        if meta['feature'] == 'reverse':
+            # C01 / C04: a task exists only once everything it requires has succeeded, and at most once
+            by_name = collections.defaultdict(list)
+            for k, t in v['tasks'].items():
+                by_name[k.split('/')[-1].split('#')[0]].append(t['state'])
+            for nm, sts in by_name.items():
+                if len(sts) > 1 and not any(f['signature'].startswith('reverse:task-twice') for f in fails):
+                    fails.append({'property': 'C01', 'signature': 'reverse:task-twice', 'what': 'task %s has %d executions after %s' % (nm, len(sts), label)})
+                for r in meta['requires'].get(nm, []):
+                    if 'SUCCESS' not in by_name.get(r, []) and not any(f['signature'] == 'reverse:started-before-required' for f in fails):
+                        fails.append({'property': 'C01', 'signature': 'reverse:started-before-required',
+                                      'what': 'task %s exists after %s although the task %s it requires has not succeeded (%s)' % (nm, label, r, by_name.get(r))})
         return v
 
     def on_event(ev, o):
@@ -282,6 +325,32 @@ def final_oracles(d, v, meta):
     fails = []
     f = meta['feature']
     root = v['wf']['R']
+    if f == 'reverse':
+        req, outs, target = meta['requires'], meta['outs'], meta['target']
+        needed, todo = [], [target]
+        while todo:
+            x = todo.pop()
+            if x not in needed:
+                needed.append(x)
+                todo += req[x]
+        runs = {}
+
+        def will_run(x):
+            if x not in runs:
+                runs[x] = all(will_run(r) and outs[r] == 'ok' for r in req[x])
+            return runs[x]
+        want = {x: ('SUCCESS' if outs[x] == 'ok' else 'ERROR') for x in needed if will_run(x)}
+        got = {}
+        for k, t in v['tasks'].items():
+            got.setdefault(k.split('/')[-1].split('#')[0], []).append(t['state'])
+        got1 = {k: (x[0] if len(x) == 1 else x) for k, x in got.items()}
+        if got1 != want:
+            fails.append({'property': 'C01', 'signature': 'reverse:wrong-task-set',
+                          'what': 'tasks that ran %s, the definition prescribes %s (target %s, requires %s, outcomes %s)' % (got1, want, target, req, outs)})
+        wstate = 'SUCCESS' if all(x == 'SUCCESS' for x in want.values()) else 'ERROR'
+        if root['state'] != wstate:
+            fails.append({'property': 'C01', 'signature': 'reverse:wrong-final-state', 'what': 'workflow %s, prescribed %s (tasks %s)' % (root['state'], wstate, want)})
+        return fails
     if f == 'with_items':
         n, outs = meta['n'], meta['outs']
         acts = {k: a for k, a in v['actions'].items() if '/t1#' in k}
